@@ -79,8 +79,10 @@ class VirtualLoop(asyncio.SelectorEventLoop):
         return out
 
     async def getaddrinfo(self, host, port, *, family=0, type=0, proto=0, flags=0):
-        # the library only resolves numeric addresses; do it synchronously so that no
-        # executor thread (and no real time) is involved
+        # the library only resolves numeric addresses; do it without an executor thread (no real time), but keep
+        # the suspension point the real loop has there: the caller resumes one iteration later, so other callbacks
+        # (a subscribe, an unsubscribe, a stop) can run in between exactly as in production
+        await asyncio.sleep(0)
         return socket.getaddrinfo(host, port, family, type, proto, flags)
 
 
